@@ -1161,6 +1161,46 @@ def run(script):
 ''', [("run", [([("a", 1), ("zz", "ping"), ("b", "close"), ("q", 7)],), ([],)])])
 
 
+# ---- a function chosen by a conditional expression, then called
+case('''
+LOG = []
+
+def _force(f):
+    LOG.append("flush")
+    LOG.append("fsync")
+
+def _leave(f):
+    LOG.append("left to the os")
+
+class T:
+    def __init__(self, idx):
+        self.idx = idx
+        self.buf = []
+        self.rows = []
+    def _by_index(self, rows):
+        for r in rows:
+            self.rows.insert(0, r)
+    def _by_pos(self, rows):
+        self.rows = self.rows + list(rows)
+    def commit(self):
+        if self.buf:
+            flush = self._by_index if self.idx else self._by_pos
+            flush(self.buf)
+            self.buf = []
+
+def run(sync, idx):
+    LOG.clear()
+    settle = _force if sync else _leave
+    LOG.append("write")
+    settle("f")
+    t = T(idx)
+    t.commit()
+    t.buf = [1, 2]
+    t.commit()
+    return list(LOG), t.rows, t.buf
+''', [("run", [(True, True), (False, False), (0, 1)])])
+
+
 def outcome(ns, fn, args):
     import copy
     try:
